@@ -47,14 +47,15 @@ Node(name, par, role) == [name |-> name, par |-> par, role |-> role, args |-> <<
 
 InitState == [stk |-> <<Frame("blk", 0)>>, nodes |-> <<>>, loaded |-> {},
               v |-> "run", why |-> "", warg |-> "", bad |-> 0, n |-> 0,
-              irr |-> {}, devs |-> {}]
+              irr |-> {}, irrat |-> 0, devs |-> {}]
 
 Top(s) == s.stk[Len(s.stk)]
 Pop(s) == [s EXCEPT !.stk = SubSeq(@, 1, Len(@) - 1)]
 Push(s, fr) == [s EXCEPT !.stk = Append(@, fr)]
 SetTop(s, fr) == [s EXCEPT !.stk[Len(s.stk)] = fr]
 Rej(s, cls, arg) == [s EXCEPT !.v = "rej", !.why = cls, !.warg = arg, !.bad = s.n + 1]
-Irr(s, x) == [s EXCEPT !.irr = @ \cup {x}]
+\* irrat: index of the token at which the first irregularity was noticed
+Irr(s, x) == [s EXCEPT !.irr = @ \cup {x}, !.irrat = IF @ = 0 THEN s.n + 1 ELSE @]
 WithDev(s, d) == [s EXCEPT !.devs = @ \cup {d}]
 
 AddNode(s, name, par, role) == [s EXCEPT !.nodes = Append(@, Node(name, par, role))]
